@@ -78,8 +78,14 @@ def run_demo(wt, name):
             for f in glob.glob(os.path.join(rel, "*")):
                 if os.path.isfile(f):
                     shutil.copy(f, tmp)
-            open(os.path.join(tmp, "go.mod"), "w").write(f"module seededdemo\ngo 1.23\nrequire github.com/tdewolff/minify/v2 v2.0.0\nreplace github.com/tdewolff/minify/v2 => {wt}\n")
-            shutil.copy(os.path.join(wt, "go.sum"), tmp)
+            gm = os.path.join(tmp, "go.mod")
+            if os.path.exists(gm):
+                # the demo brought its own module file (extra requirements from the module cache): point its replace at our worktree
+                txt = re.sub(r"(replace github.com/tdewolff/minify/v2 => )\S+", lambda m: m.group(1) + wt, open(gm).read())
+                open(gm, "w").write(txt)
+            else:
+                open(gm, "w").write(f"module seededdemo\ngo 1.23\nrequire github.com/tdewolff/minify/v2 v2.0.0\nreplace github.com/tdewolff/minify/v2 => {wt}\n")
+                shutil.copy(os.path.join(wt, "go.sum"), tmp)
             rc, out = sh(["go", "run", "."], cwd=tmp, timeout=600)
         finally:
             shutil.rmtree(tmp, ignore_errors=True)
